@@ -428,6 +428,7 @@ async fn exec_op(st: &mut St, op: &Value, obs: &mut Vec<Value>) {
                         "abort" => act.abort(&pid, &tid, &opts),
                         "error" => act.error(&pid, &tid, &opts),
                         "back" => act.back(&pid, &tid, &opts),
+                        "cancel" => act.cancel(&pid, &tid, &opts),
                         _ => Err(acts::ActError::Action(format!("bad event {event}"))),
                     };
                     match r {
